@@ -223,3 +223,12 @@ package datamodel
 //@   assigns nothing
 //@   ensures[C14] len(p.segments) > 0 ==> s == p.segments[0] && len(r.segments) == len(p.segments) - 1 && (forall j mathint :: 0 <= j && j < len(r.segments) ==> r.segments[j] == p.segments[j+1])
 //@   ensures[C14] len(p.segments) == 0 ==> len(r.segments) == 0 && s.i == 0 - 1
+
+// ---- builders ----
+
+//@ interface NodePrototype.NewBuilder() (nb)
+//@   assigns nothing
+//@   ensures nb != nil && fresh(nb)
+//@ interface NodeBuilder.Build() (n)
+//@   assigns nothing
+//@   ensures n != nil
